@@ -48,13 +48,16 @@ COMPONENTS = {"real": ["operon_ai.healing.chaperone_loop.ChaperoneLoop", "operon
                        "datetime.now (virtual clock)"]}
 ASSUMPTIONS = [
     "'the previous attempt's error' is the error trace the chaperone produced for the previous raw output; the retry must "
-    "receive a text containing it (the plain chaperone's trace is generic, so the error-tagging subclass makes it unique per fold)",
+    "receive a text containing it (the plain chaperone's trace is generic, so the error-tagging subclass makes it unique per fold); "
+    "in addition the feedback must not be an older attempt's: a context that carries the never-repeating output of an attempt "
+    "before the previous one and nothing of the previous one is stale, whatever its format (judged with every chaperone variant)",
     "a completion marker is one of SUCCESS/SOLVED/COMPLETE/DONE/FINISHED, case-insensitively, anywhere in the output",
     "bounds are upper bounds: a loop that stops earlier (entropy collapse, raising peer) is not judged for that",
     "a degraded result is required to be tagged with confidence 0; that it carries no structure is not demanded",
     "pydantic is trusted for re-validation",
 ]
 EXPECT_PROBES = ("heal_degraded_at_limit", "heal_healed_at_limit", "heal_valid_first_try", "heal_retry_got_error",
+                 "heal_retry_quotes_previous_output",
                  "heal_generator_raised", "swarm_all_workers_used", "swarm_step_limit_hit", "swarm_success_at_last_step",
                  "swarm_entropy_collapse", "swarm_limit_zero", "tools_rounds_exhausted", "tools_final_at_limit",
                  "tools_limit_zero", "tools_unknown_forever", "enumerated_case")
@@ -152,12 +155,12 @@ def gen(rng, tier, i):
     if kind == "heal":
         # bias: first success exactly at / just after the limit, or never
         n = rng.randint(0, 8)
-        alpha = "IIWWEUUMQR" + "VXL"
+        alpha = "IIWWEUUUUMQR" + "VXL"
         shape = weighted(rng, [(3, "never"), (3, "at_limit"), (2, "after_limit"), (2, "free")])
         if shape == "free":
             s = [rng.choice(alpha) for _ in range(n)]
         else:
-            bad = "IWEUMQ"
+            bad = "IWEUUUMQ"
             k = {"never": 9, "at_limit": lim, "after_limit": lim + 1}[shape]
             s = [rng.choice(bad) for _ in range(min(k, 8))]
             if shape != "never":
@@ -263,6 +266,7 @@ def _run_heal(plan, k, tr):
         strategies = [FoldingStrategy(s) for s in cfg["strategies"]]
     chap = _RecChaperone(cfg["chap"] == "tagged", strategies)
     calls = []          # (error_context, number of folds made before this call)
+    tokens = {}         # attempt index -> unique token carried by that attempt's raw output
 
     def generator(prompt, error_context=None):
         n = len(calls)
@@ -279,7 +283,8 @@ def _run_heal(plan, k, tr):
         if sym == "E":
             return error_context if error_context is not None else prompt
         if sym == "U":
-            return f"garbage number {n} <<{n * 7919}>>"
+            tokens[n] = f"<<{n * 7919}>>"          # never repeats; short and first, so any quoting of this output shows it
+            return f"{tokens[n]} garbage number {n}"
         return HEAL_OUT[sym]
 
     loop = ChaperoneLoop(generator=generator, chaperone=chap, schema=Quote, max_retries=lim,
@@ -306,6 +311,21 @@ def _run_heal(plan, k, tr):
             k.violation("err_threaded", "retry_without_previous_error", "heal/" + ("retry1" if j == 1 else "retryN"),
                         f"retry {j} received {('None' if ctx is None else repr(str(ctx)[:80]))}, previous error was {errs[-1][:80]!r}")
             break           # one root cause, one signature: report the first retry that was starved
+    # ... and not an older attempt's: whatever the format of the feedback, a context that identifiably carries the
+    # output of attempt i < j-1 and nothing of attempt j-1 is the feedback of an older attempt
+    for j in range(2, n):
+        ctx = calls[j][0]
+        if (j - 1) not in tokens or not isinstance(ctx, str):
+            continue
+        if tokens[j - 1] in ctx:
+            k.probe("heal_retry_quotes_previous_output")
+            continue
+        older = [i for i in sorted(tokens) if i < j - 1 and tokens[i] in ctx]
+        if older:
+            k.violation("err_threaded", "stale_feedback_quotes_older_attempt", "heal/retryN",
+                        f"retry {j} received feedback quoting attempt {older[-1]} ({tokens[older[-1]]}) but not attempt "
+                        f"{j - 1} ({tokens[j - 1]}): {ctx[:120]!r}")
+            break
     if n >= bound:
         k.nontrivial = True
     if not out.ok:
